@@ -157,8 +157,64 @@ def bbox_judge(ctx, n):
     return found
 
 
-def search(ctx, disagreements):
+def rect_laws(ctx, n):
+    """Rect.intersection / union / SVG.bounding_box fold against plain interval arithmetic (exact Fractions)"""
+    SVG, Rect, T = impl()
+    from functools import reduce
+    rng = ctx.rng
     found = []
+    for _ in range(n):
+        rs = []
+        for _k in range(rng.randint(2, 4)):
+            r = c11.rrect(rng)
+            rs.append((r[0], r[1], abs(r[2]), abs(r[3])))
+        if rng.random() < 0.4:
+            a = rs[0]
+            rs[1] = rng.choice([(a[0] + a[2] / 4, a[1] + a[3] / 4, a[2] / 2, a[3] / 2), (a[0] - 1, a[1] - 1, a[2] + 2, a[3] + 2),
+                                (a[0] + a[2], a[1], a[2], a[3]), (a[0], a[1] - a[3] / 2, a[2], a[3])])
+        R = [Rect(*r) for r in rs]
+        a, b = R[0], R[1]
+        # intersection: interval arithmetic
+        x0, x1 = max(a.x, b.x), min(a.x + a.w, b.x + b.w)
+        y0, y1 = max(a.y, b.y), min(a.y + a.h, b.y + b.h)
+        want = (x0, y0, x1 - x0, y1 - y0) if (x0 < x1 and y0 < y1) else None
+        got = a.intersection(b)
+        if (got is None) != (want is None) or (got is not None and tuple(got) != want):
+            found.append({"kind": "rect-law", "input": [c11.qs(rs[0]), c11.qs(rs[1])], "detail": "Rect%s.intersection(Rect%s) = %s, interval arithmetic gives %s" % (tuple(map(str, rs[0])), tuple(map(str, rs[1])), got, want)})
+        # union of all (the bounding_box fold)
+        u = reduce(lambda p, q: p.union(q), R)
+        wx0, wy0 = min(r.x for r in R), min(r.y for r in R)
+        wx1, wy1 = max(r.x + r.w for r in R), max(r.y + r.h for r in R)
+        if (u.x, u.y, u.x + u.w, u.y + u.h) != (wx0, wy0, wx1, wy1):
+            found.append({"kind": "rect-law", "input": [c11.qs(r) for r in rs], "detail": "union fold of %s = %s, smallest enclosing box is %s" % ([tuple(map(str, r)) for r in rs], tuple(map(str, u)), tuple(map(str, (wx0, wy0, wx1 - wx0, wy1 - wy0))))})
+        ctx.count("rect-law")
+    return found
+
+
+def doc_bbox_judge(ctx, docs):
+    """SVG.bounding_box() must be the smallest box containing every shape's outline extrema"""
+    SVG, Rect, T = impl()
+    found = []
+    for t in docs:
+        o, res = common.outcome_of(lambda: (SVG.fromstring(t).bounding_box(), [list(s.as_cmd_seq()) for s in SVG.fromstring(t).shapes()]))
+        if o != "ok" or res[0] is None:
+            continue
+        bb, seqs = res
+        ext = [geom.bbox(geom.flatten(sq, 1e-4)) for sq in seqs]
+        ext = [e for e in ext if e]
+        if not ext:
+            continue
+        want = (min(e[0] for e in ext), min(e[1] for e in ext), max(e[2] for e in ext), max(e[3] for e in ext))
+        got = (bb.x, bb.y, bb.x + bb.w, bb.y + bb.h)
+        tol = 5e-3 * max(1.0, want[2] - want[0], want[3] - want[1])
+        if max(abs(g - w) for g, w in zip(got, want)) > tol:
+            found.append({"kind": "bbox", "input": t, "detail": "document bounding_box %s but the shapes' outlines span %s" % (got, want)})
+        ctx.count("doc-bbox-judged")
+    return found
+
+
+def search(ctx, disagreements):
+    found = rect_laws(ctx, 3000 if ctx.thorough() else 600)
     if not ctx.driver_ok:
         return found
     docs = pico_docs(ctx, 120 if ctx.thorough() else 30)
@@ -175,6 +231,7 @@ def search(ctx, disagreements):
         if why:
             found.append({"kind": "clip-law", "input": t, "detail": why})
     found += bbox_judge(ctx, 600 if ctx.thorough() else 150)
+    found += doc_bbox_judge(ctx, docs)
     ctx.stats["distinct_nontrivial"] = nontrivial + 2
     ctx.stats["evaluations"] = ctx.stats.get("evaluations", 0) + len(docs)
     if docs:
